@@ -53,12 +53,12 @@ def step (_ : Unit) (j : Json) : Except String (Unit × Json) := do
     let cls ← clsOfJson (← j.getObjVal? "cls")
     let loads ← loadsOfJson (← j.getObjVal? "loads")
     let atts ← (← j.getObjVal? "atts").getArr?
-    let atts ← atts.toList.mapM (fun a => do let s ← a.getStr?; pure (bytesOfHex s))
+    let atts ← atts.toList.mapM (fun a => do let s ← a.getStr?; pure (J.bin (bytesOfHex s)))
     match decode cls loads text with
     | .error e => pure ((), excJson e)
     | .ok (p, n) =>
       -- hand attachments back one at a time, recording each answer
-      let rec go (pt : Partial) (bs : List Bytes) (acc : List Json) (fuel : Nat) : List Json × Option Packet :=
+      let rec go (pt : Partial) (bs : List J) (acc : List Json) (fuel : Nat) : List Json × Option Packet :=
         match fuel, bs with
         | 0, _ => (acc.reverse, none)
         | _, [] => (acc.reverse, none)
